@@ -43,7 +43,13 @@ Definition claim_ok_prov (cl : claim) : bool :=
   | _, _ => false
   end.
 
-Definition validate_constfold (d : nat) := vrw_func claim_ok_prov d.
+Definition guess_ctx_prov (E : facts) (e : expr) : option ctx :=
+  match eval prov_numops [] 200 (env_of_facts E) [] CReal e with
+  | ROk (VCtx c, _) => Some c
+  | _ => None
+  end.
+
+Definition validate_constfold (d : nat) := vrw_func claim_ok_prov guess_ctx_prov d.
 
 (* ---------------------------------------------------------------- the code of a step *)
 Definition b2n (b : bool) (w : nat) : nat := if b then w else O.
